@@ -345,14 +345,9 @@ def topStepsT (w : Bool) (dollar : Bool) (ss : List SStep) : List Step :=
 /-- the abstract path with the texts the library records for this spelling -/
 def texts (a : SPath) : Path := .mk .root (topStepsT true a.dollar a.steps) (a.fns.map (fnW true))
 
-end Spell
-
 /-- the abstract path without any text: what the spelling is a spelling OF -/
-def SPath.erase (a : Spell.SPath) : Path :=
-  .mk .root (Spell.topStepsT false a.dollar a.steps) (a.fns.map (Spell.fnW false))
-
-namespace Spell
-open Lex Print
+def SPath.erase (a : SPath) : Path :=
+  .mk .root (topStepsT false a.dollar a.steps) (a.fns.map (fnW false))
 
 /-! ### the domain -/
 
